@@ -21,12 +21,14 @@ func init() {
 			"(GetStorage(id) with len(...) == 0 dominating the return of the very value that was looked up), every other exit is an error; createNewToken validates ticker and token name before anything is created, " +
 			"saves the token (error checked) under exactly the identifier it got from createNewTokenIdentifier and returns that identifier. An identifier returned without the emptiness test on itself can overwrite an existing token. " +
 			"The random part is printed with %06x and an interval analysis of the mutable *big.Int along the CFG (SetBytes of a 3-byte slice, Add, Mod, Lsh; widening around the retry loop) shows it below 16^6 at the print: exactly six digits. " +
+			"Each range test isTickerValid accepts pairs bounds of one class, A..Z or 0..9. " +
 			"Not decided (value-level): lowercase/charset of the ticker part (validated elsewhere).",
 		Run: runC41,
 	})
 }
 
 func runC41(c *core.Ctx) {
+	c41TickerAlphabet(c)
 	const pkg = "vm/systemSmartContracts"
 	if fn := anchorM(c, pkg, "esdt", "createNewTokenIdentifier"); fn != nil {
 		c41Digits(c, fn)
@@ -451,4 +453,100 @@ func c41Digits(c *core.Ctx, fn *ssa.Function) {
 			fmt.Sprintf("%s, which is not below 16^%d: after a taken candidate at the top of the range the identifier gets %d digits (TICKER-1000000)", detail, width, width+1))
 	})
 	c.Floor("C41/identifier-has-fixed-width", 1)
+}
+
+// c41TickerAlphabet: the part of an identifier in front of the dash is the ticker as the caller
+// sent it; what keeps it to capital letters and digits is isTickerValid. Each range test it accepts
+// pairs a lower and an upper bound of the SAME class - 'A'..'Z' or '0'..'9'. A "simplified" single
+// range '0'..'Z' also admits : ; < = > ? @, and tokens get registered under malformed identifiers.
+func c41TickerAlphabet(c *core.Ctx) {
+	fn := anchorF(c, "vm/systemSmartContracts", "isTickerValid")
+	if fn == nil {
+		return
+	}
+	type bound struct {
+		lower bool
+		k     int64
+	}
+	// bounds that a condition (known true) puts on the character, with the value compared
+	boundOf := func(v ssa.Value) (ssa.Value, bound, bool) {
+		bo, ok := v.(*ssa.BinOp)
+		if !ok {
+			return nil, bound{}, false
+		}
+		x, y := bo.X, bo.Y
+		op := bo.Op
+		if _, isC := core.ConstInt(x); isC {
+			x, y = y, x
+			op = map[token.Token]token.Token{token.LSS: token.GTR, token.GTR: token.LSS, token.LEQ: token.GEQ, token.GEQ: token.LEQ}[op]
+		}
+		k, isC := core.ConstInt(y)
+		if !isC {
+			return nil, bound{}, false
+		}
+		switch op {
+		case token.GEQ:
+			return x, bound{true, k}, true
+		case token.GTR:
+			return x, bound{true, k + 1}, true
+		case token.LEQ:
+			return x, bound{false, k}, true
+		case token.LSS:
+			return x, bound{false, k - 1}, true
+		}
+		return nil, bound{}, false
+	}
+	n, bad := 0, ""
+	classes := map[[2]int64]bool{{'A', 'Z'}: true, {'0', '9'}: true}
+	// the accepting condition: a disjunction of conjunctions of range tests
+	core.Instrs(fn, func(in ssa.Instruction) {
+		ifi, ok := in.(*ssa.If)
+		if !ok {
+			return
+		}
+		// the test that decides a character: one of its branches rejects the ticker
+		rejects := false
+		for _, sb := range ifi.Block().Succs {
+			if r, isR := sb.Instrs[len(sb.Instrs)-1].(*ssa.Return); isR && len(sb.Instrs) == 1 {
+				if b, isC := core.ConstBool(r.Results[0]); isC && !b {
+					rejects = true
+				}
+			}
+		}
+		if !rejects || core.InnermostLoop(fn, ifi.Block()) == nil {
+			return
+		}
+		for _, d := range core.Disjuncts(ifi.Cond) {
+			cj := core.Conjuncts(d)
+			var lo, hi []int64
+			var ch ssa.Value
+			for _, t := range cj {
+				x, b, isB := boundOf(t)
+				if !isB {
+					continue
+				}
+				if ch == nil {
+					ch = x
+				}
+				if x != ch {
+					continue
+				}
+				if b.lower {
+					lo = append(lo, b.k)
+				} else {
+					hi = append(hi, b.k)
+				}
+			}
+			if len(lo) == 0 && len(hi) == 0 {
+				continue
+			}
+			n++
+			if len(lo) != 1 || len(hi) != 1 || !classes[[2]int64{lo[0], hi[0]}] {
+				bad = fmt.Sprintf("a range test accepts characters %v..%v", lo, hi)
+			}
+		}
+	})
+	c.Check(n >= 2 && bad == "", "C41/ticker-alphabet", "isTickerValid", fn.Pos(),
+		fmt.Sprintf("%d range tests, each 'A'..'Z' or '0'..'9'", n),
+		"isTickerValid: "+bad+" (as character codes), which is not one of 'A'..'Z' / '0'..'9': tickers with other characters are accepted and tokens are registered under identifiers that are not TICKER-xxxxxx")
 }
